@@ -7,7 +7,7 @@ from inscripta.biocantor.exc import (
 
 from harness.common import (
     AND, IFF, ITE, MINUS, NOT, OR, PLUS, SUM, CompoundInterval, EmptyLocation, SingleInterval, Strand, blocks_of,
-    layout_blocks, layout_params, layout_pre, make_location, member, rel_of_pos, sname, total_len, walk_pos,
+    layout_blocks, layout_params, layout_pre, make_location, member, rel_of_pos, same_blocks, sname, total_len, walk_pos,
     wellformed,
 )
 from vlib.obl import Obl, split_cubes
@@ -220,6 +220,9 @@ def relloc(k, strand, kq, qstrand, force_compound=False):
         in_res = member(r, rb)
         conds.append(OR(NOT(AND(0 <= r, r < n)), IFF(in_res, member(walk_pos(bl, strand, r), qb))))
         conds.append(OR(AND(0 <= r, r < n), NOT(in_res)))
+        # the conversion leaves both operands as they were (block order included): compared with untouched twins
+        conds.append(same_blocks(blocks_of(q), blocks_of(make_location(qb, qstrand))))
+        conds.append(same_blocks(blocks_of(loc), blocks_of(_mk(k, strand, kw, force_compound)[1])))
         return AND(*conds)
 
     return fn
